@@ -99,6 +99,10 @@ type Bounds struct {
 	MaxDev    int
 	MaxStates int           // cap (0 = none)
 	Budget    time.Duration // wall-clock cap (0 = none); hitting it ends with exhaustive=false
+	// NoCrashFirst: the coordinator first explores the family without crash variants (same depth, same budget) and
+	// then again with them, so that the crash variants (which multiply the work per depth) never cost the plain
+	// histories their depth when a budget is hit.
+	NoCrashFirst bool
 	NoCrash   bool
 	// CrashAfterStore restricts crash points to those immediately after a durable store
 	// write (the node dies before the effect op that follows the write).
